@@ -132,6 +132,11 @@ func (e *Engine) callContract(fr *Frame, st *State, callee *ssa.Function, ct *Co
 	}
 	for i, c := range ct.Requires {
 		goal := e.evalClause(env, c)
+		if strings.HasPrefix(c.Label, "data-") {
+			// representation invariant of package-level tables: established by the ground data check of the same name
+			e.assume(Implies(st.guard, goal))
+			continue
+		}
 		e.oblige("call-pre", fmt.Sprintf("call %s#%d/requires[%s]", short, ord, clauseName(c, i)), st.guard, goal, pos)
 		e.assume(Implies(st.guard, goal))
 	}
